@@ -829,7 +829,7 @@ func runC14(c *core.Ctx) {
 					continue
 				}
 				layouts[key] = lay
-				if len(c.Res.Samples) < 5 {
+				if len(c.Res.Samples) < 3 {
 					var ks []string
 					for _, s := range lay.sites {
 						ks = append(ks, fmt.Sprintf("%s@%d(%d writes)", c14KindNames[s.kind], s.start, len(s.pieces)))
@@ -949,7 +949,7 @@ func runC14(c *core.Ctx) {
 			callmap = append(callmap, fmt.Sprintf("%d%%nat", s.call))
 		}
 		c.Vm("From Coq Require Import List NArith Bool Arith.\nFrom PQ Require Import Sink.Model.\nImport ListNotations.\nOpen Scope N_scope.")
-		c.Vm("Definition bytes (off n : nat) : list N := map (fun i => N.of_nat (i mod 251)) (seq off n).")
+		c.Vm("Definition bytes (off n : N) : list N := map (fun i => (off + N.of_nat i) mod 251) (seq 0 (N.to_nat n)).")
 		c.Vm("Definition lay : list (site N) := [\n  " + strings.Join(sites, ";\n  ") + "].")
 		c.Vm("Definition callmap : list nat := " + core.CoqList(callmap) + ".")
 		c.Vm(fmt.Sprintf("Definition close_call : nat := %d%%nat.", vmLayout.closeCall))
@@ -959,6 +959,7 @@ func runC14(c *core.Ctx) {
 		c.Vm("Definition mismatches := filter (fun x => negb (agrees x)) cases.")
 		// the copy path (Sink/Copy.v) and the reader's demand (Sink/Demand.v)
 		c.Vm("From PQ Require Import Sink.Copy Sink.Demand.")
+		c.Vm("Definition cbytes := bytes.")
 		if len(env.vmCopyDefs) == 0 {
 			env.vmCopyDefs = []string{"Definition citems : list (item N) := [].", "Definition ccallmap : list nat := [].", "Definition cclose : nat := 0%nat.", "Definition cncalls : nat := 0%nat."}
 		}
@@ -975,10 +976,8 @@ func runC14(c *core.Ctx) {
 		c.Vm("Definition dcases : list (ftable * list (N * N) * list (list (N * N))) := " + core.CoqList(env.vmDemand) + ".")
 		c.Vm("Definition dagrees (x : ftable * list (N * N) * list (list (N * N))) : bool :=\n  let '(t, o, cs) := x in ranges_eqb (open_demand t) o && all2 (fun c r => ranges_eqb (chunk_reads (ft_bufsize t) c) r) (ft_rows t) cs.")
 		c.Vm("Definition dmismatches := filter (fun x => negb (dagrees x)) dcases.")
-		c.Vm("Definition D1 := Eval vm_compute in mismatches. Print D1.")
-		c.Vm("Definition D2 := Eval vm_compute in cmismatches. Print D2.")
-		c.Vm("Definition D3 := Eval vm_compute in map (fun x => fst (fst x)) dmismatches. Print D3.")
-		c.Vm("Definition M := Eval vm_compute in ((length cases + length ccases + length dcases)%nat,\n  (map (fun _ => 1%nat) mismatches ++ map (fun _ => 2%nat) cmismatches ++ map (fun _ => 3%nat) dmismatches)).\nPrint M.")
+		c.Vm("Definition R := Eval vm_compute in (mismatches, cmismatches, map (fun x => fst (fst x)) dmismatches).\nPrint R.")
+		c.Vm("Definition M := Eval vm_compute in ((length cases + length ccases + length dcases)%nat,\n  (map (fun _ => 1%nat) (fst (fst R)) ++ map (fun _ => 2%nat) (snd (fst R)) ++ map (fun _ => 3%nat) (snd R))).\nPrint M.")
 		c.Res.VmCases = len(vmCases) + len(env.vmCopyCases) + len(env.vmDemand)
 	}
 	c.Note("the model abstracts the batching of the API calls: a site is attributed to the API call that wrote it in the fault-free reference run, and the call that reports first must be that call (for a buffered writer: the call during which the failing flush of bufio.Writer happens)")
